@@ -83,6 +83,33 @@ package badgerstore
 //@   ensures zero: imp(old(iq.Limit) == 0, len(res) == 0 && isNil(err))
 //@   ensures failed: imp(!isNil(err), len(res) == 0)
 //@   ensures closed: itopen == 0
+//@   # the window: limit < 0 is unlimited (MaxInt), a negative offset is zero
+//@   ensures count: imp(isNil(err) && old(iq.Limit) != 0, len(res) == ite(rank(itn, ref(iq.FilterKeys), len(iq.Index.Name)+1, len(iq.Index.Name)+1+len(iq.KeyPrefix)) - ite(old(iq.Offset) > 0, old(iq.Offset), 0) < 0, 0,
+//@       ite(rank(itn, ref(iq.FilterKeys), len(iq.Index.Name)+1, len(iq.Index.Name)+1+len(iq.KeyPrefix)) - ite(old(iq.Offset) > 0, old(iq.Offset), 0) > ite(old(iq.Limit) < 0, 9223372036854775807, old(iq.Limit)), ite(old(iq.Limit) < 0, 9223372036854775807, old(iq.Limit)),
+//@           rank(itn, ref(iq.FilterKeys), len(iq.Index.Name)+1, len(iq.Index.Name)+1+len(iq.KeyPrefix)) - ite(old(iq.Offset) > 0, old(iq.Offset), 0))))
+//@   ensures window: imp(isNil(err) && old(iq.Limit) != 0, forall(j, 0, len(res), 0 <= rpos[j] && rpos[j] < itn && accq(rpos[j], ref(iq.FilterKeys), len(iq.Index.Name)+1, len(iq.Index.Name)+1+len(iq.KeyPrefix))
+//@       && rank(rpos[j], ref(iq.FilterKeys), len(iq.Index.Name)+1, len(iq.Index.Name)+1+len(iq.KeyPrefix)) == ite(old(iq.Offset) > 0, old(iq.Offset), 0) + j && idIs(res[j], rpos[j])))
+//@   opaque rank lastNul
+//@
+//@ # ---- index maintenance is queued per change and awaited by Flush ----
+//@ # uixn: invocations of updateIndex on the calling goroutine
+//@ ghostvar uixn int
+//@ func (qs *QueryStore) Flush()
+//@   requires qs != nil && qs.tq != nil && 0 <= tqdone && tqdone <= tqn
+//@   modifies ghost.tqn, ghost.tqdone, ghost.chtask, alloc
+//@   callsite recv#1 builtin.recvQueued
+//@   # the task queued here is Flush$1, which closes done (Flush$1#post.closes); done is not shared with anyone else
+//@   ghost call TaskQueue.Do#1 after :: set chtask = store(chtask, ref(done), tqn)
+//@   ensures quiescent: tqdone >= old(tqn)
+//@ func QueryStore.Flush$1()
+//@   modifies ghost.chclosed
+//@   callsite close#1 builtin.closeQueued
+//@   ensures closes: chclosed[ref(done)]
+//@ func (qs *QueryStore) handleChange(id string, before interface{}, after interface{})
+//@   requires qs != nil && qs.tq != nil
+//@   modifies ghost.tqn, ghost.tqdone, alloc
+//@   ensures queued: tqn == old(tqn) + 1
+//@   ensures not.inline: uixn == old(uixn)
 //@
 //@ props C14
 //@ # the index-query callback, key functions and key filters are client code; they are assumed to be
